@@ -270,4 +270,23 @@ def runSteps (items : List Item) (sched : List CapAns) : LoopSt :=
 /-- a task still waiting when the answers run out waits for ever -/
 def LoopSt.end_ (s : LoopSt) : End := s.fin.getD .stalled
 
+/-! ### several streams on one connection
+
+Every accepted request gets its own task (`actix_rt::spawn`, dispatcher.rs:135) that owns its
+`SendResponse`/`SendStream`, its body and a clone of the config; the tasks share no state of
+actix's.  A connection is therefore a family of loop states indexed by stream id, and an event
+is a capacity answer delivered to one of them. -/
+
+abbrev ConnSt := Nat → LoopSt
+
+def connStep (c : ConnSt) (e : Nat × CapAns) : ConnSt :=
+  fun k => if k = e.1 then step (c k) e.2 else c k
+
+def runConn (bodies : Nat → List Item) (evs : List (Nat × CapAns)) : ConnSt :=
+  evs.foldl connStep (fun k => pull [] (bodies k))
+
+/-- the answers addressed to stream `k`, in order -/
+def project (k : Nat) (evs : List (Nat × CapAns)) : List CapAns :=
+  (evs.filter (fun e => e.1 == k)).map (·.2)
+
 end ActixModel.H2
